@@ -571,7 +571,8 @@ func checkC04(tier string) int {
 		}
 		// the node has checked the genuine transaction before (half of the mutants): a node that remembers
 		// anything from that validation must not let it vouch for the mutant
-		if i%2 == 0 {
+		// (and every fee mutant of an EVM transaction: its fee is signed for, yet is not part of the payload)
+		if i%2 == 0 || (j.base.Kind == "OLVM" && strings.HasPrefix(j.m.name, "fee-")) {
 			probePrime.Store(string(j.m.bytes), j.base.Bytes)
 			r.Count("mutants_after_the_genuine_transaction_was_checked", 1)
 		}
